@@ -3,6 +3,7 @@
 Require Extraction.
 Require ExtrOcamlBasic.
 From Coq Require Import NArith.
-From Pika Require Import Base.Conc Base.Agent Model.Join.
+From Pika Require Import Base.Conc Base.Agent Model.Join Model.JoinLock Gen.GenJoin.
 Extraction Language OCaml.
-Extraction "m.ml" tstep step jrun g_init l_init round_robin run_task all_done join_ok_b a_resume N.succ.   (* N.succ: conv.ml.in expects the numeral types *)
+Extraction "m.ml" tstep step jrun g_init l_init round_robin run_task all_done join_ok_b a_resume
+  ltstep lg_init ll_init lrun_task lround_robin first_waiter calls_returned waits_for join_unlocks_before_wait N.succ.   (* N.succ: conv.ml.in expects the numeral types *)
